@@ -2,7 +2,7 @@ use crate::error::Error;
 use crate::vm::builtin::{pop_argc, pop_string, pop_symbol};
 use crate::vm::vcell::VCell;
 use crate::vm::Vm;
-use crate::{lex, parse};
+use crate::parse;
 
 pub fn load_builtins(vm: &mut Vm) {
     vm.load_builtin("string->symbol", string_symbol);
@@ -15,16 +15,7 @@ pub fn string_symbol(vm: &mut Vm) -> Result<VCell, Error> {
     let s = pop_string(vm, "string->append")?;
     let s = s.borrow();
     let s = s.as_str();
-    let sym = s
-        .char_indices()
-        .map(|(idx, c)| match c {
-            // a backslash starts an escape in the stored (written) form of a name
-            '\\' => format!("\\x{:x};", c as u32),
-            c if idx == 0 && lex::is_initial_identifier(c) => c.to_string(),
-            c if idx > 0 && lex::is_subsequent_identifier(c) => c.to_string(),
-            c => format!("\\x{:x};", c as u32),
-        })
-        .collect::<String>();
+    let sym = parse::symbol_text(s);
     Ok(VCell::symbol(sym))
 }
 
